@@ -395,10 +395,20 @@ func copyDurable(m map[string][]byte) map[string]string {
 	return out
 }
 
+// canonDoc normalises a stored JSON document (empty == absent, instants in UTC).
+func canonDoc(raw string) string {
+	var g any
+	if err := json.Unmarshal([]byte(raw), &g); err != nil {
+		return raw
+	}
+	b, _ := json.Marshal(normTimes(g))
+	return string(b)
+}
+
 func diffDurable(a, b map[string]string) string {
 	for k, v := range a {
-		if b[k] != v {
-			return "key " + k + " changed"
+		if b[k] != v && canonDoc(b[k]) != canonDoc(v) {
+			return "key " + k + " changed: " + diffViews(view{k: canonDoc(v)}, view{k: canonDoc(b[k])})
 		}
 	}
 	for k := range b {
